@@ -10,14 +10,29 @@ _CACHE = {}
 
 
 def kernel(modname, attr):
+    """(front-end module, kernel object, KernelSim) for the module global `attr`; if the front-end imports the
+    kernel under another name the global bound to osyris.plot.utils.<attr> is used; (mod, None, None) if there is none."""
     key = (modname, attr)
     if key not in _CACHE:
         mod = importlib.import_module(modname)
         obj = getattr(mod, attr, None)
+        name = attr
         if obj is None:
-            raise HarnessError(f"HARNESS-UNSUPPORTED: seam {modname}.{attr} not found")
-        _CACHE[key] = (mod, obj, KernelSim(obj))
-    return _CACHE[key]
+            try:
+                ref = getattr(importlib.import_module("osyris.plot.utils"), attr)
+            except (ImportError, AttributeError):
+                ref = None
+            for k, v in vars(mod).items():
+                if ref is not None and v is ref:
+                    obj, name = v, k
+                    break
+        _CACHE[key] = (mod, obj, KernelSim(obj) if obj is not None else None, name)
+    return _CACHE[key][:3]
+
+
+def seam_name(modname, attr):
+    kernel(modname, attr)
+    return _CACHE[(modname, attr)][3]
 
 
 class Seam:
@@ -25,11 +40,13 @@ class Seam:
 
     def __init__(self, modname, attr, sim_factory):
         self.mod, self.orig, self.ks = kernel(modname, attr)
-        self.attr = attr
+        self.attr = seam_name(modname, attr)
         self.sim_factory = sim_factory
         self.calls = []
 
     def __enter__(self):
+        if self.ks is None:
+            return self  # no seam: the front-end runs as shipped, nothing is recorded
         ks, calls, factory = self.ks, self.calls, self.sim_factory
         sig = inspect.signature(ks.py)
 
@@ -49,7 +66,8 @@ class Seam:
         return self
 
     def __exit__(self, *exc):
-        setattr(self.mod, self.attr, self.orig)
+        if self.ks is not None:
+            setattr(self.mod, self.attr, self.orig)
         return False
 
 
